@@ -75,7 +75,7 @@ class LimitHarness(planh.PlanHarness):
             try:
                 e1.hpoint(("call", i))
                 w = cfg.get("barrier")
-                if w and i < w:
+                if w and i in (cfg.get("barrier_calls") or range(w)):
                     ctx["arrived"] += 1
                     s.point(("barrier", i), pred=lambda: ctx["arrived"] >= w)
                 if i in fail:
@@ -160,6 +160,15 @@ def cfgs_inflight(tier):
 
 def cfgs_barrier(tier):
     out = []
+    # rendezvous among calls that only become ready later: one root fanning out, a chain then a fan-out, two roots joining into a fan-out
+    for w in (2, 3):
+        shapes = [(1 + w, [(0, j, "p") for j in range(1, 1 + w)], list(range(1, 1 + w))),
+                  (2 + w, [(0, 1, "p")] + [(1, j, "d") for j in range(2, 2 + w)], list(range(2, 2 + w))),
+                  (2 + w, [(i, j, "p") for i in (0, 1) for j in range(2, 2 + w)], list(range(2, 2 + w)))]
+        for n, edges, calls in shapes:
+            for W in (w - 1, w, w + 1):
+                for sc in ("default", "random"):
+                    out.append({"n": n, "edges": edges, "output": list(range(n)), "W": W, "sched": sc, "barrier": w, "barrier_calls": calls})
     for w in (2, 3):
         for W in (w - 1, w, w + 1):
             for extra in (0, 1):
